@@ -57,10 +57,10 @@ def gen(ch, tier):
     k = TIERS[tier]["schedules"]
     big = tier == "thorough" and ch.coin(0.3)
     scn = world.gen_gamma_scenario(ch.sub("scn"), max_annot=4, max_units=9 if big else 6,
-                                   max_samples=12 if big else 8)
+                                   max_samples=12 if big else 8, large_fast=0.12)
     return {"scenario": scn,
             "schedules": [world.gen_schedule(ch.sub(f"sched{i}")) for i in range(k)],
-            "with_cat": True}
+            "with_cat": True, "real_pool_probe": ch.coin(0.25)}
 
 
 def _workload(scn, continuum, dissim, with_cat):
@@ -159,6 +159,18 @@ def run(case):
             violations.append({"kind": "repetition_dependent_result",
                                "msg": f"repeating the canonical execution in the same process changes the result: {d}",
                                "sig": {"what": d.split(":")[0]}, "canonical": ref, "got": _outcome(out2)})
+    # fidelity probe: the real ThreadPoolExecutor (schedule not controlled) must agree with the canonical simulated run
+    if not violations and case.get("real_pool_probe"):
+        try:
+            real = work()
+        except Exception as e:  # noqa: BLE001
+            real = {"error": type(e).__name__}
+        stats["real_pool_probes"] = 1
+        d = _diff(ref, real)
+        if d is not None:
+            violations.append({"kind": "real_pool_differs",
+                               "msg": f"the real ThreadPoolExecutor gives a result different from the canonical simulated execution: {d}",
+                               "sig": {"what": d.split(":")[0]}, "canonical": ref, "got": real})
     canon_d = digest(ref)
     return {"violations": violations, "stats": stats, "keys": keys, "digest": canon_d,
             "record": canon_d, "event_digest": digest([ref, events, [v["kind"] for v in violations]]),
